@@ -29,6 +29,19 @@ func (e *Engine) optField(sv *StructV, typeName, field string) uint64 {
 	return 0
 }
 
+// cborConst reads a named constant of the cbor package from its SSA (not from my reading of the source).
+func (e *Engine) cborConst(name string) uint64 {
+	for _, p := range e.prog.AllPackages() {
+		if p.Pkg.Path() == cborPath {
+			if c, ok := p.Members[name].(*ssa.NamedConst); ok {
+				return c.Value.Uint64()
+			}
+		}
+	}
+	e.unsupported("cbor constant not found: " + name)
+	return 0
+}
+
 func namedIs(t types.Type, pkg, name string) bool {
 	n, ok := t.(*types.Named)
 	return ok && n.Obj().Pkg() != nil && n.Obj().Pkg().Path() == pkg && n.Obj().Name() == name
@@ -58,6 +71,20 @@ func (e *Engine) findMethod(t types.Type, name string) (*ssa.Function, bool) {
 	return nil, false
 }
 
+// sortMode maps the option value to 0 none / 1 length-first / 2 bytewise.
+func (e *Engine) sortMode(v uint64) int {
+	switch v {
+	case e.cborConst("SortNone"):
+		return 0
+	case e.cborConst("SortLengthFirst"):
+		return 1
+	case e.cborConst("SortBytewiseLexical"):
+		return 2
+	}
+	e.unsupported("unknown cbor sort mode")
+	return 0
+}
+
 // ---- encoding --------------------------------------------------------------------------------------
 
 type encCtx struct {
@@ -68,9 +95,9 @@ type encCtx struct {
 
 func (e *Engine) cborMarshal(opts *StructV, v Iface) Value {
 	ctx := encCtx{
-		sort:          int(e.optField(opts, "EncOptions", "Sort")),
-		tagsForbidden: e.optField(opts, "EncOptions", "TagsMd") == 1,
-		nilAsNull:     e.optField(opts, "EncOptions", "NilContainers") == 0,
+		sort:          e.sortMode(e.optField(opts, "EncOptions", "Sort")),
+		tagsForbidden: e.optField(opts, "EncOptions", "TagsMd") == e.cborConst("TagsForbidden"),
+		nilAsNull:     e.optField(opts, "EncOptions", "NilContainers") == e.cborConst("NilContainerAsNull"),
 	}
 	node, err := e.encodeValue(ctx, v.val, v.typ)
 	if err.typ != nil {
@@ -439,10 +466,10 @@ func (e *Engine) decCtxOf(opts *StructV, data BytesV) decCtx {
 		root = root.aliasOf
 	}
 	return decCtx{
-		tagsForbidden:  e.optField(opts, "DecOptions", "TagsMd") == 1,
-		indefForbidden: e.optField(opts, "DecOptions", "IndefLength") == 0,
-		dupEnforced:    e.optField(opts, "DecOptions", "DupMapKey") == 1,
-		intDecSigned:   e.optField(opts, "DecOptions", "IntDec") == 1,
+		tagsForbidden:  e.optField(opts, "DecOptions", "TagsMd") == e.cborConst("TagsForbidden"),
+		indefForbidden: e.optField(opts, "DecOptions", "IndefLength") == e.cborConst("IndefLengthForbidden"),
+		dupEnforced:    e.optField(opts, "DecOptions", "DupMapKey") == e.cborConst("DupMapKeyEnforcedAPF"),
+		intDecSigned:   e.optField(opts, "DecOptions", "IntDec") == e.cborConst("IntDecConvertSigned"),
 		opts:           opts,
 		input:          root,
 	}
